@@ -389,6 +389,21 @@ class Fn:
         return '\n'.join(lines)
 
 
+_GEN = __import__('re').compile(r"(::)?<[A-Za-z0-9_', ]+>")
+
+
+def short(d):
+    """def-path with plain generic argument lists removed: `a::B::<T>::f::<C>` -> `a::B::f`,
+    `x::<impl a::B<T>>::f` -> `x::<impl a::B>::f`"""
+    if not d:
+        return ''
+    prev = None
+    while prev != d:
+        prev = d
+        d = _GEN.sub('', d)
+    return d
+
+
 def callee_def(t):
     return t['callee']['def'] if t['k'] == 'call' else None
 
@@ -682,3 +697,63 @@ def def_roots(fn, l, depth=10, _seen=None):
                 continue
         out.append((b, idx, rv))
     return out
+
+
+def _norm_rv(rv, norm):
+    k = rv['k']
+    if k == 'aggregate':
+        return (k, rv.get('agg'), norm(rv.get('adt') or rv.get('def') or ''), rv.get('vname'))
+    if k == 'binop' or k == 'unop':
+        return (k, rv['op'])
+    if k == 'cast':
+        return (k, rv['kind'])
+    if k == 'ref':
+        return (k,)
+    if k == 'use':
+        c = op_const(rv['op'])
+        if c is not None and c.get('k') in ('int', 'bool', 'char', 'str'):
+            return (k, 'const', c['v'])
+        return (k,)
+    return (k,)
+
+
+def cfg_isomorphic(f1, f2, norm=lambda s: s, ignore_stmt=False):
+    """lock-step walk of two bodies from bb0: same terminator kinds, same (normalised) callees, same switch values,
+    same statement skeleton. returns (True, n_blocks) or (False, description)"""
+    m = {0: 0}
+    work = deque([(0, 0)])
+    seen = set()
+    while work:
+        a, b = work.popleft()
+        if (a, b) in seen:
+            continue
+        seen.add((a, b))
+        ba, bb = f1.blocks[a], f2.blocks[b]
+        if not ignore_stmt:
+            sa = [_norm_rv(s['rv'], norm) for s in ba['stmts'] if s['k'] == 'assign']
+            sb = [_norm_rv(s['rv'], norm) for s in bb['stmts'] if s['k'] == 'assign']
+            if sa != sb:
+                return False, 'statements differ in bb%d / bb%d: %s vs %s' % (a, b, sa, sb)
+        ta, tb = ba['term'], bb['term']
+        if ta['k'] != tb['k']:
+            return False, 'terminator kinds differ in bb%d / bb%d: %s vs %s' % (a, b, ta['k'], tb['k'])
+        if ta['k'] == 'call':
+            ca = norm(callee_resolved(ta) or ta['callee']['def'])
+            cb = norm(callee_resolved(tb) or tb['callee']['def'])
+            if ca != cb:
+                return False, 'callees differ in bb%d / bb%d: %s vs %s' % (a, b, ca, cb)
+            if len(ta['args']) != len(tb['args']):
+                return False, 'argument counts differ in bb%d / bb%d' % (a, b)
+        if ta['k'] == 'switch':
+            if [v for v, _ in ta['targets']] != [v for v, _ in tb['targets']]:
+                return False, 'switch values differ in bb%d / bb%d' % (a, b)
+        ea = [tg for _, tg in f1.succ_edges(a) if not f1.blocks[tg]['cleanup']]
+        eb = [tg for _, tg in f2.succ_edges(b) if not f2.blocks[tg]['cleanup']]
+        if len(ea) != len(eb):
+            return False, 'successor counts differ in bb%d / bb%d' % (a, b)
+        for x, y in zip(ea, eb):
+            if x in m and m[x] != y:
+                return False, 'block correspondence breaks at bb%d->bb%d / bb%d->bb%d' % (a, x, b, y)
+            m[x] = y
+            work.append((x, y))
+    return True, len(m)
